@@ -241,6 +241,7 @@ func compareTable(c *fw.Ctx, rule, what string, fn *ssa.Function, resIdx int, va
 	c.SawFn(fw.FuncName(fn))
 	mismatches := map[string]string{} // construct -> detail (deduplicated by code row + expectation)
 	unknown := map[string]bool{}
+	notUnderstood := map[string]bool{}
 	rowsUsed := map[*ssa.Return]bool{}
 	n := enumerate(vars, func(a asg) {
 		want := oracle(a)
@@ -265,6 +266,10 @@ func compareTable(c *fw.Ctx, rule, what string, fn *ssa.Function, resIdx int, va
 		if len(rows) == 0 {
 			got = "<no path>"
 		}
+		if got != want && strings.Contains(got, "unknown") {
+			notUnderstood[fmt.Sprintf("for [%s] the code's outcome is not understood (%s)", a.String(), got)] = true
+			return
+		}
 		if got != want {
 			key := fmt.Sprintf("%s: %s expected %s", what, strings.Join(dedupStr(pos), ","), want)
 			if _, seen := mismatches[key]; !seen {
@@ -278,6 +283,13 @@ func compareTable(c *fw.Ctx, rule, what string, fn *ssa.Function, resIdx int, va
 		c.Undecided(rule, what+": unrecognised branch condition", "the function branches on a condition the rule does not know: "+u)
 	}
 	if len(unknown) > 0 {
+		return
+	}
+	for u := range notUnderstood {
+		c.Undecided(rule, what+": outcome not understood", u)
+		break
+	}
+	if len(mismatches) == 0 && len(notUnderstood) > 0 {
 		return
 	}
 	if len(mismatches) == 0 {
